@@ -476,13 +476,13 @@ func (wg *WeightedAuthorizationModelGraph) calculateNodeWeightWithMixedStrategy(
 		return fmt.Errorf("%w: %s node does not have any terminal type to reach to", ErrInvalidModel, node.uniqueLabel)
 	}
 
-	for idx, edge := range edges {
-		for key, value := range edge.weights {
+	for idx, operand := range groupEdgesByOperand(edges) {
+		for key, value := range maxWeightsOfEdges(operand) {
 			if _, ok := weights[key]; !ok {
-				if idx != len(edges)-1 {
-					// This is the A edge.  We take the max weight of all key
+				if idx == 0 {
+					// This is the A operand.  We take the max weight of all key
 					weights[key] = value
-				} // otherwise, B edge requires weight to be present in A. Otherwise, we will ignore.
+				} // otherwise, B operand requires weight to be present in A. Otherwise, we will ignore.
 			} else {
 				weights[key] = int(math.Max(float64(weights[key]), float64(value)))
 			}
@@ -506,19 +506,17 @@ func (wg *WeightedAuthorizationModelGraph) calculateNodeWeightWithEnforceTypeStr
 		return fmt.Errorf("%w: %s node does not have any terminal type to reach to", ErrInvalidModel, node.uniqueLabel)
 	}
 
-	for _, edge := range edges {
-		// for but not ensure that the first edge is the left edge
-		// the first time, take the weights of the edge
-		if len(weights) == 0 {
-			for key, value := range edge.weights {
-				weights[key] = value
-			}
+	for idx, operand := range groupEdgesByOperand(edges) {
+		operandWeights := maxWeightsOfEdges(operand)
+		// the first time, take the weights of the operand
+		if idx == 0 {
+			weights = operandWeights
 			continue
 		}
 
-		// for AndOperation, remove the key if it is not in the edge, not all edges return the same type
+		// for AndOperation, remove the key if it is not in the operand, not all operands return the same type
 		for key := range weights {
-			if value, ok := edge.weights[key]; !ok {
+			if value, ok := operandWeights[key]; !ok {
 				delete(weights, key)
 			} else {
 				weights[key] = int(math.Max(float64(weights[key]), float64(value)))
@@ -530,6 +528,48 @@ func (wg *WeightedAuthorizationModelGraph) calculateNodeWeightWithEnforceTypeStr
 	}
 	node.weights = weights
 	return nil
+}
+
+// groupEdgesByOperand splits the edges of an operator node into the operands of the operator.
+// A direct assignment and a tuple to userset expand to several edges (one per type restriction and
+// one per parent type of the tupleset, respectively), which have to be evaluated as a single operand
+// by the intersection and the exclusion. Any other edge is an operand on its own.
+func groupEdgesByOperand(edges []*WeightedAuthorizationModelEdge) [][]*WeightedAuthorizationModelEdge {
+	operands := make([][]*WeightedAuthorizationModelEdge, 0, len(edges))
+	positions := make(map[string]int)
+	for _, edge := range edges {
+		var key string
+		switch edge.edgeType {
+		case DirectEdge:
+			key = "direct"
+		case TTUEdge:
+			_, computedRelation, _ := strings.Cut(edge.to.uniqueLabel, "#")
+			key = "ttu:" + edge.tuplesetRelation + ":" + computedRelation
+		default:
+			operands = append(operands, []*WeightedAuthorizationModelEdge{edge})
+			continue
+		}
+		if position, ok := positions[key]; ok {
+			operands[position] = append(operands[position], edge)
+		} else {
+			positions[key] = len(operands)
+			operands = append(operands, []*WeightedAuthorizationModelEdge{edge})
+		}
+	}
+	return operands
+}
+
+// maxWeightsOfEdges returns, for every type present in any of the edges, its max weight.
+func maxWeightsOfEdges(edges []*WeightedAuthorizationModelEdge) map[string]int {
+	weights := make(map[string]int)
+	for _, edge := range edges {
+		for key, value := range edge.weights {
+			if current, ok := weights[key]; !ok || value > current {
+				weights[key] = value
+			}
+		}
+	}
+	return weights
 }
 
 // This is a comodity function to check if the node is the root of any tuple cycle,
